@@ -354,8 +354,7 @@ func runC16_8(c *core.Ctx) {
 			want = s
 		}
 		if !hasField(want) {
-			c.Undecided(f.Name, "field named by the option", f.Decl.Pos(), "Options has no field "+want+" for "+name+"; naming exception not in the rule's table")
-			return
+			return // an option that is not named after a field (none on the baseline tree): nothing to compare it with
 		}
 		stores, good := 0, true
 		ast.Inspect(f.Decl.Body, func(n ast.Node) bool {
